@@ -17,6 +17,8 @@ import (
 	"hash/fnv"
 	"math/rand"
 	"os"
+	"runtime/debug"
+	"runtime/pprof"
 	"strings"
 
 	sh "github.com/hashicorp/consul/verifharness/internal/snaph"
@@ -105,10 +107,25 @@ type agg struct {
 	seen                               map[string]bool
 }
 
-func newAgg() *agg { return &agg{api: map[string]*counts{}, seen: map[string]bool{}} }
+func newAgg() *agg { return &agg{api: map[string]*counts{}, seen: map[string]bool{}, ex: []M{}} }
 
 func (g *agg) add(o sh.Obs, params []sh.P, n int) {
 	g.n++
+	if params == nil {
+		params = []sh.P{}
+	}
+	note := func(api, out string) {
+		if k := api + "/" + out; !g.seen[k] {
+			g.seen[k] = true
+			g.ex = append(g.ex, M{"api": api, "outcome": out, "params": append([]sh.P{}, params...), "len": n, "err": o.Errs[api]})
+		}
+	}
+	if o.FsmAfterReject {
+		note("fsm", "after_reject")
+	}
+	if o.FsmDiff {
+		note("fsm", "diff")
+	}
 	for api, out := range map[string]string{"verifread": o.VerifRead, "verify": o.Verify, "read": o.Read, "restore": o.Restore} {
 		if out == "" {
 			continue
@@ -117,10 +134,7 @@ func (g *agg) add(o sh.Obs, params []sh.P, n int) {
 			g.api[api] = &counts{}
 		}
 		g.api[api].add(out)
-		if k := api + "/" + out; !g.seen[k] {
-			g.seen[k] = true
-			g.ex = append(g.ex, M{"api": api, "outcome": out, "params": append([]sh.P(nil), params...), "len": n})
-		}
+		note(api, out)
 	}
 	g.fsmCalls += o.FsmCalls
 	if o.FsmAfterReject {
@@ -141,7 +155,7 @@ func (g *agg) event(sc sh.Scenario, b *sh.Base, seed int64) M {
 		api[k] = c.json()
 	}
 	return M{"scn": M{"wrap": sc.Wrap, "faults": sc.Faults}, "base": b.Info(), "n": g.n, "api": api, "seed": seed,
-		"restore": M{"fsm_calls": g.fsmCalls, "fsm_after_reject": g.fsmAfterReject, "fsm_diff": g.fsmDiff, "accepted": g.restoreAccepted},
+		"restore":    M{"fsm_calls": g.fsmCalls, "fsm_after_reject": g.fsmAfterReject, "fsm_diff": g.fsmDiff, "accepted": g.restoreAccepted},
 		"tmp_leaked": g.tmpLeaked, "ex": g.ex}
 }
 
@@ -171,7 +185,15 @@ func runItem(w *sh.World, b *sh.Base, sc sh.Scenario, t sh.Tier, r *rand.Rand) *
 		a := sh.Start(b, sc.Wrap)
 		cs, err := w.Candidates(b, a, sc.Faults[0], t, r)
 		check(err)
-		for _, p := range cs {
+		every := 1
+		if sc.Wrap == "gz" && !strings.HasPrefix(sc.Faults[0].T, "gz") && t.GzTarEvery > 1 && len(cs) > 2*t.GzTarEvery {
+			every = t.GzTarEvery // the same tar-level fault is tried at EVERY position on the plain form
+		}
+		off := r.Intn(every)
+		for ci, p := range cs {
+			if every > 1 && ci%every != off && ci != 0 && ci != len(cs)-1 {
+				continue
+			}
 			o, n := instance(w, b, sc, []sh.P{p})
 			g.add(o, []sh.P{p}, n)
 		}
@@ -221,6 +243,15 @@ func runItem(w *sh.World, b *sh.Base, sc sh.Scenario, t sh.Tier, r *rand.Rand) *
 	return g
 }
 
+func world(tmp string) *sh.World {
+	w, err := sh.NewWorld(tmp)
+	check(err)
+	if v := os.Getenv("H_SNAP_PERTURB"); v != "" {
+		fmt.Sscanf(v, "%d", &w.Perturb)
+	}
+	return w
+}
+
 func openOut(path string) (*os.File, *bufio.Writer) {
 	f, err := os.Create(path)
 	check(err)
@@ -240,7 +271,18 @@ func cmdRun(args []string) {
 	shard := fs.String("shard", "0/1", "")
 	tmp := fs.String("tmp", "", "private temp dir")
 	out := fs.String("out", "", "")
+	only := fs.String("bases", "", "comma separated base ids (default all)")
+	prof := fs.String("cpuprofile", "", "")
 	fs.Parse(args)
+	if *prof != "" {
+		pf, err := os.Create(*prof)
+		check(err)
+		pprof.StartCPUProfile(pf)
+		defer pprof.StopCPUProfile()
+	}
+	if *only != "" {
+		baseIDs = strings.Split(*only, ",")
+	}
 	var si, sn int
 	fmt.Sscanf(*shard, "%d/%d", &si, &sn)
 	raw, err := os.ReadFile(*scn)
@@ -251,8 +293,7 @@ func cmdRun(args []string) {
 	if *tier == "thorough" {
 		t = sh.Thorough
 	}
-	w, err := sh.NewWorld(*tmp)
-	check(err)
+	w := world(*tmp)
 	defer w.Close()
 	bases := make([]*sh.Base, len(baseIDs))
 	for i, id := range baseIDs {
@@ -368,8 +409,7 @@ func cmdRandom(args []string) {
 	tmp := fs.String("tmp", "", "")
 	out := fs.String("out", "", "")
 	fs.Parse(args)
-	w, err := sh.NewWorld(*tmp)
-	check(err)
+	w := world(*tmp)
 	defer w.Close()
 	r := rand.New(rand.NewSource(*seed))
 	f, bw := openOut(*out)
@@ -501,8 +541,7 @@ func cmdOne(args []string) {
 		} `json:"base"`
 	}
 	check(json.Unmarshal(raw, &inst))
-	w, err := sh.NewWorld(*tmp)
-	check(err)
+	w := world(*tmp)
 	defer w.Close()
 	b := makeBase(w, inst.Base.ID, inst.Seed, inst.Base.SumsFirst)
 	sc := sh.Scenario{Wrap: inst.Wrap, Faults: inst.Faults}
@@ -530,6 +569,9 @@ func cmdOne(args []string) {
 }
 
 func main() {
+	if os.Getenv("GOGC") == "" {
+		debug.SetGCPercent(400) // many short-lived 32 KiB buffers; fewer collections, but keep the heap cache-warm
+	}
 	if len(os.Args) < 2 {
 		fatal("usage: h-snap run|random|one ...")
 	}
